@@ -135,7 +135,10 @@ def cache_templates(k, fresh):
             lambda: "cload:%d" % k, lambda: "sweep", lambda: "store:%d:%d@100" % (k, v()), lambda: "store:%d:%d@3" % (k, v()),
             lambda: "delete:%d" % k, lambda: "lad:%d" % k, lambda: "load:%d" % k, lambda: "len", lambda: "tick:10",
             lambda: "los:%d:%d@100" % (k, v()), lambda: "replace:%d:%d@100" % (k, v()), lambda: "copy",
-            lambda: "clos:%d:%d@10" % (k, v()), lambda: "store:%d:%d@10" % (k, v())]   # expiry boundary: tick:10 makes now == vu
+            lambda: "clos:%d:%d@10" % (k, v()), lambda: "store:%d:%d@10" % (k, v()),   # expiry boundary: tick:10 makes now == vu
+            # CheckExpirations(now) with a caller-chosen now: behind the clock (2, 5 after tick:10), ahead of it (50, 200),
+            # at the boundary of an entry (10)
+            lambda: "sweep:2", lambda: "sweep:5", lambda: "sweep:10", lambda: "sweep:50", lambda: "sweep:200"]
 
 
 def gen_programs(ctx):
@@ -167,7 +170,8 @@ def gen_programs(ctx):
     T = cache_templates(1, fr)
     for pre in (["store:1:5@3", "tick:10"], ["store:1:5@3", "store:2:6@3", "tick:10"]):
         for a, b in itertools.combinations_with_replacement([0, 1, 3, 5, 7, 8, 11, 12], 2):
-            P.append(fmt_prog("cache", pre, [["sweep"], [T[a]()], [T[b]()]], ["cload:1", "load:1", "load:2", "len"]))
+            for sw in ("sweep", "sweep:5", "sweep:200"):
+                P.append(fmt_prog("cache", pre, [[sw], [T[a]()], [T[b]()]], ["cload:1", "load:1", "load:2", "len"]))
     # 5. random programs: 2-3 threads x 1-3 operations on 1-2 keys
     n = 6000 if thorough else 500
     for i in range(n):
@@ -362,6 +366,10 @@ def explore(ctx, art, coop):
         kinds[p.split()[1]] = kinds.get(p.split()[1], 0) + 1
     for k, n in kinds.items():
         ctx.count("schedules:" + k, n)
+    nsw = sum(1 for _, s in runs if re.search(r"c\d+:sweep:\d", s))
+    ctx.count("schedules with CheckExpirations(now) where now is not the clock (ahead / behind)", nsw)
+    ctx.count("schedules in which a sweep ahead of the clock removed an entry not yet expired by the clock",
+              sum(1 for _, s in runs if re.search(r"c\d+:sweep:200 (?:\S+ )*?r\d+:x=\[[^\]]*@100", s)))
     ctx.cov["evaluations"] = len(runs)
     ctx.cov["distinct_nontrivial"] = distinct
     ctx.cov["traces_validated_against_impl"] = ok
@@ -404,7 +412,7 @@ def run(ctx):
     ctx.cov["exhaustive"] = True
     ctx.cov["rule"] = ("programs: every pair of operations of the full Map API on one key (3 initial maps), triples of the "
                        "store-if-absent / read-modify-write family, every pair of Cache operations (5 initial states incl. expired "
-                       "entries), sweep against two threads, plus seeded random programs (2-3 threads x 1-3 operations, 1-2 keys). "
+                       "entries; incl. CheckExpirations(now) with now behind / at / ahead of the clock), sweep against two threads, plus seeded random programs (2-3 threads x 1-3 operations, 1-2 keys). "
                        "For EVERY program ALL interleavings at critical-section granularity are executed on the real code "
                        "(cooperative scheduler through a build overlay of the mutex; capped per random program, truncations "
                        "counted in the histogram). evaluations = schedules executed + stress rounds. A history is non-trivial when "
